@@ -34,6 +34,8 @@ struct C02 : Prop {
 		J se = pc::debug_session(0);
 		J phs = J::arr();
 		bool loop = r.chance(200);
+		std::map<uint32_t, int> used;      // response budget charged per node over the whole session (nothing is answered: no message may ever be deferred)
+		std::map<uint32_t, int> seqs;      // sequence number the library will use next for a node (loop-back plans: one task, debug mode)
 		int nph = (int) r.range(1, thorough ? 4 : 2);
 		for (int p = 0; p < nph; p++) {
 			J ph = J::obj();
@@ -41,15 +43,32 @@ struct C02 : Prop {
 				// phase: send calls (nothing is answered), then loop the recorded downlink back
 				J ops = J::arr();
 				int no = (int) r.range(3, 25);
-				std::map<uint32_t, int> used;
 				for (int i = 0; i < no; i++) {
 					const cat::LL *f = &cat::table[r.below(cat::table_n)];
+					if (r.chance(400)) {
+						// a packet of its own (flush before and after) whose CRC byte is one of the values next to / equal to the reserved
+						// bytes: the data byte of a MSG_SYS_PING is solved for it (single task, debug mode: the sequence number is known)
+						std::vector<uint8_t> ad; size_t depth = (size_t) r.below(4);
+						for (size_t q = 0; q < depth; q++) ad.push_back((uint8_t) r.range(1, 255));
+						uint32_t key = 0; for (size_t q = 0; q < 3; q++) key = (key << 8) | (q < ad.size() ? ad[q] : 0);
+						if (used[key] + 5 > 48) continue;
+						used[key] += 5;
+						int &sq = seqs[key]; sq = sq >= 255 ? 1 : sq + 1;
+						static const uint8_t targets[] = {0xFD, 0xFE, 0xFF, 0xFC, 0x00};
+						uint8_t want = targets[r.below(5)], data = 0;
+						for (int d = 0; d < 256; d++) { ref::Msg m; m.addr = ad; m.seq = (uint8_t) sq; m.type = MSG_SYS_PING; m.data = {(uint8_t) d}; if (ref::crc8(m.encode()) == want) { data = (uint8_t) d; break; } }
+						J fl0 = J::obj(); fl0.set("op", "flush"); ops.push(fl0);
+						J op = J::obj(); op.set("op", "ll"); op.set("fn", "sys_ping"); op.set("node", pc::jnode3(ad)); op.set("a", hex_of(std::vector<uint8_t>{data})); ops.push(op);
+						J fl1 = J::obj(); fl1.set("op", "flush"); ops.push(fl1);
+						continue;
+					}
 					std::vector<uint8_t> ad; size_t depth = (size_t) r.below(4);
 					for (size_t q = 0; q < depth; q++) ad.push_back((uint8_t) r.range(1, 255));
 					if (f->to_interface_only) ad.clear();
 					uint32_t key = 0; for (size_t q = 0; q < 3; q++) key = (key << 8) | (q < ad.size() ? ad[q] : 0);
 					if (used[key] + pc::resp_info(f->type).size > 48) continue;
 					used[key] += pc::resp_info(f->type).size;
+					{ int &sq = seqs[key]; sq = sq >= 255 ? 1 : sq + 1; }
 					ops.push(pc::ll_op(r, *f, ad));
 				}
 				J fl = J::obj(); fl.set("op", "flush"); ops.push(fl);
@@ -133,6 +152,7 @@ struct C02 : Prop {
 	}
 
 	void at_end(Engine &e) override {
+		if (e.plan.getb("loopback")) check_loopback(e);
 		bool open = false;
 		std::vector<ref::Frame> fs = ref::decode_stream(e.bus.delivered, 255, &open);
 		std::vector<Tok> toks;
@@ -172,6 +192,28 @@ struct C02 : Prop {
 		}
 	}
 
+	// loop-back clause: "whatever the library's own sender emits, its receiver decodes to the identical message sequence" - judged against
+	// the calls that were made (not against my decoding of the downlink, which would excuse a malformed downlink as 'unspecified')
+	void check_loopback(Engine &e) {
+		std::vector<ref::Msg> want;
+		for (auto &o : e.oplog) if (o.op->gets("op") == "ll") want.push_back(pc::ll_expected(*o.op));
+		size_t n = std::min(want.size(), got.size());
+		for (size_t i = 0; i <= n; i++) {
+			std::string have = i < got.size() ? hex_of(got[i]) : std::string("nothing more");
+			if (i == n) {
+				if (want.size() == got.size()) return;
+				if (want.size() > got.size()) e.violate("GOOD_MESSAGE_DROPPED", "loopback of own downlink", "the library sent " + std::to_string(want.size()) + " messages and its own receiver, fed with exactly these bytes, delivered only " + std::to_string(got.size()) + "; first missing: " + pc::msg_key(want[i]));
+				e.violate("UNEXPECTED_MESSAGE", "loopback of own downlink", "receiver delivered more messages than were sent, first surplus: " + have);
+			}
+			const std::vector<uint8_t> &g = got[i];
+			ref::Msg m; size_t k = 1;
+			while (k < g.size() && g[k] != 0 && m.addr.size() < 4) m.addr.push_back(g[k++]);
+			if (k + 2 < g.size() + 0 && g[k] == 0) { m.seq = g[k + 1]; m.type = g[k + 2]; m.data.assign(g.begin() + (long) k + 3, g.end()); }
+			if (pc::msg_key(m) != pc::msg_key(want[i]))
+				e.violate("MESSAGE_MISMATCH", "loopback of own downlink", "message #" + std::to_string(i) + " sent as " + pc::msg_key(want[i]) + " came back from the library's own receiver as " + have);
+		}
+	}
+
 	void coverage(Engine &e, J &f) override {
 		f.set("nontrivial", good_after_bad > 0 || (e.plan.getb("loopback") && frames_good > 0));
 		f.set("shape", (long long) ((pc::shape_hash(e.plan) ^ fnv1a_u64(FNV_INIT, frames_good * 131 + frames_bad * 17 + frames_unspec)) >> 1));
@@ -179,6 +221,7 @@ struct C02 : Prop {
 		p.set("frames_good", (long long) frames_good); p.set("frames_bad_crc", (long long) frames_bad); p.set("frames_unspecified", (long long) frames_unspec);
 		p.set("good_after_corrupted", (long long) good_after_bad); p.set("crc_escaped", (long long) escaped_crc); p.set("multi_message_frames", (long long) multi);
 		p.set("messages_read", (long long) got.size()); p.set("loopback_runs", e.plan.getb("loopback") ? 1 : 0);
+		p.set("loopback_downlink_packets_with_escaped_crc", (long long) e.bus.dec.crc_escapes);
 		f.set("probes", p);
 	}
 };
